@@ -5,8 +5,10 @@ import (
 	"go/constant"
 	"go/token"
 	"go/types"
+	"os"
 	"sort"
 	"strings"
+	"time"
 
 	"golang.org/x/tools/go/ssa"
 )
@@ -29,9 +31,9 @@ func unsupported(format string, a ...interface{}) {
 }
 
 type decision struct {
-	alt     int
-	n       int
-	checked bool
+	alt  int
+	n    int
+	feas []int8 // per alternative: 1 feasible, 2 infeasible (decided when the decision was created)
 }
 
 // Config bounds one harness run.
@@ -43,6 +45,7 @@ type Config struct {
 	MapPerms     bool // fork over all iteration orders of maps
 	TimeoutMs    int
 	Tier         string
+	MaxWallS     int // per harness wall-clock budget
 }
 
 // Machine executes one harness function over all feasible paths.
@@ -131,7 +134,15 @@ func NewMachine(prog *ssa.Program, solver *Solver, cfg Config, hooks *Hooks) *Ma
 func (m *Machine) RunHarness(fn *ssa.Function) *HarnessResult {
 	m.Res = &HarnessResult{Name: fn.Name(), Reached: map[string]int{}, Functions: map[string]bool{}}
 	m.dec = nil
+	start := time.Now()
 	for {
+		if m.Cfg.MaxWallS > 0 && time.Since(start).Seconds() > float64(m.Cfg.MaxWallS) {
+			m.inconclusive("wall-clock budget of %ds exceeded after %d paths (bound too large for this tier)", m.Cfg.MaxWallS, m.Res.Paths)
+			break
+		}
+		if os.Getenv("VF_PROGRESS") != "" && (m.Res.Paths+m.Res.Pruned)%200 == 199 {
+			fmt.Fprintf(os.Stderr, "[%s] paths=%d pruned=%d queries=%d %.0fs\n", fn.Name(), m.Res.Paths, m.Res.Pruned, m.Solver.Stats.Queries, time.Since(start).Seconds())
+		}
 		if m.Res.Paths+m.Res.Pruned >= m.Cfg.MaxPaths {
 			m.inconclusive("path limit %d exceeded", m.Cfg.MaxPaths)
 			break
@@ -159,9 +170,12 @@ func (m *Machine) inconclusive(format string, a ...interface{}) {
 func (m *Machine) backtrack() bool {
 	for len(m.dec) > 0 {
 		d := &m.dec[len(m.dec)-1]
-		if d.alt+1 < d.n {
-			d.alt++
-			d.checked = false
+		next := d.alt + 1
+		for next < d.n && d.feas[next] == 2 {
+			next++
+		}
+		if next < d.n {
+			d.alt = next
 			return true
 		}
 		m.dec = m.dec[:len(m.dec)-1]
@@ -262,7 +276,7 @@ func (m *Machine) feasible(c *Term) Result {
 	if m.pcKeys[Not(c).Key()] {
 		return Unsat
 	}
-	r := m.Solver.Check(append(append([]*Term(nil), m.pc...), c))
+	r := m.Solver.CheckPC(m.pc, []*Term{c})
 	return r
 }
 
@@ -278,49 +292,44 @@ func (m *Machine) choose(n int, exhaustive bool, cond func(i int) *Term) int {
 	}
 	if m.pos < len(m.dec) {
 		d := &m.dec[m.pos]
-		if !d.checked {
-			for d.alt < n {
-				r := m.feasible(cond(d.alt))
-				if r != Unsat {
-					if r == Unknown {
-						m.uncertain = true
-					}
-					d.checked = true
-					break
-				}
-				d.alt++
-			}
-			if d.alt >= n {
-				d.alt = n - 1
-				m.pos++
-				panic(pathAbort{"no feasible alternative"})
-			}
-		}
 		m.pos++
 		m.assume(cond(d.alt))
 		return d.alt
 	}
-	allUnsat := true
+	// new decision: decide the feasibility of every alternative now, so that
+	// backtracking never re-executes a prefix only to find a dead branch
+	feas := make([]int8, n)
+	first := -1
+	nsat := 0
 	for alt := 0; alt < n; alt++ {
 		c := cond(alt)
 		var r Result
-		if exhaustive && alt == n-1 && allUnsat {
+		if exhaustive && alt == n-1 && nsat == 0 {
 			r = Sat // implied by feasibility of the path condition
 		} else {
 			r = m.feasible(c)
 		}
-		if r != Unsat {
-			if r == Unknown {
-				m.uncertain = true
-			}
-			m.dec = append(m.dec, decision{alt: alt, n: n, checked: true})
-			m.Res.Decisions++
-			m.pos++
-			m.assume(c)
-			return alt
+		if r == Unsat {
+			feas[alt] = 2
+			continue
+		}
+		if r == Unknown {
+			m.uncertain = true
+		}
+		feas[alt] = 1
+		nsat++
+		if first < 0 {
+			first = alt
 		}
 	}
-	panic(pathAbort{"no feasible alternative"})
+	if first < 0 {
+		panic(pathAbort{"no feasible alternative"})
+	}
+	m.dec = append(m.dec, decision{alt: first, n: n, feas: feas})
+	m.Res.Decisions++
+	m.pos++
+	m.assume(cond(first))
+	return first
 }
 
 // branch forks on a Boolean value; returns the concrete outcome on this path.
@@ -421,7 +430,7 @@ func (m *Machine) nondetVar(name string, s Sort) *Term {
 }
 
 func (m *Machine) recordViolation(kind, msg string) {
-	res, model := m.Solver.CheckModel(m.pc, m.nondet)
+	res, model := m.Solver.CheckPCModel(m.pc, nil, m.nondet)
 	if res == Unsat {
 		return // path was only kept because of an unknown; not a real violation
 	}
@@ -476,7 +485,7 @@ func (m *Machine) assert(c Value, msg string) {
 		m.Res.Asserts++
 		return
 	}
-	res, model := m.Solver.CheckModel(append(append([]*Term(nil), m.pc...), neg), m.nondet)
+	res, model := m.Solver.CheckPCModel(m.pc, []*Term{neg}, m.nondet)
 	switch res {
 	case Unsat:
 		m.Res.Asserts++
@@ -1398,6 +1407,8 @@ func (m *Machine) index(x, i Value, t types.Type) Value {
 	switch a := x.(type) {
 	case *Array:
 		return a.E[m.concreteIndex(i, len(a.E), "array index")]
+	case string, *Term:
+		return m.stringIndex(x, i)
 	}
 	unsupported("index on %T", x)
 	return nil
@@ -1424,8 +1435,35 @@ func (m *Machine) indexAddr(x, i Value) Value {
 // ASCII content (DESIGN 3.4). The path condition must imply it.
 var asciiRe = &Regex{Pattern: "ascii", SMT: `(re.* (re.range "\u{0}" "\u{7f}"))`}
 
+// knownASCII: syntactically ASCII (constants, ASCII code variables, and
+// concatenations / substrings of those).
+func knownASCII(t *Term) bool {
+	switch t.Op {
+	case "const":
+		for _, r := range t.S {
+			if r > 127 {
+				return false
+			}
+		}
+		return true
+	case "str.from_code":
+		c := t.Args[0]
+		return c.Op == "var" && c.Hi > 0 && c.Hi < 128
+	case "str.++":
+		for _, a := range t.Args {
+			if !knownASCII(a) {
+				return false
+			}
+		}
+		return true
+	case "str.substr", "str.at":
+		return knownASCII(t.Args[0])
+	}
+	return false
+}
+
 func (m *Machine) asciiGuard(s *Term, what string) {
-	if s.IsConst() {
+	if s.IsConst() || knownASCII(s) {
 		return
 	}
 	g := &Term{Op: "in_re", Args: []*Term{s}, Sort: SBool, Re: asciiRe}
@@ -1440,15 +1478,7 @@ func (m *Machine) asciiGuard(s *Term, what string) {
 
 func (m *Machine) lookup(x, k Value, commaOk bool, xt, rt types.Type) Value {
 	if typeIsString(xt) {
-		// s[i] : byte
-		st := toTerm(x)
-		m.asciiGuard(st, "s[i]")
-		it := toTerm(k)
-		inb := And(Ge(it, IntT(0)), Lt(it, Len(st)))
-		if !m.branch(fromTerm(inb)) {
-			panic(goPanic{msg: "string index out of range"})
-		}
-		return fromTerm(ToCode(At(st, it)))
+		return m.stringIndex(x, k)
 	}
 	mr := x.(MapRef)
 	vt := xt.Underlying().(*types.Map).Elem()
@@ -1463,6 +1493,26 @@ func (m *Machine) lookup(x, k Value, commaOk bool, xt, rt types.Type) Value {
 		return Tuple{val, idx >= 0}
 	}
 	return val
+}
+
+// stringIndex is s[i] (a byte).
+func (m *Machine) stringIndex(x, k Value) Value {
+	if cs, ok := x.(string); ok {
+		if ci, ok := k.(int64); ok {
+			if ci < 0 || ci >= int64(len(cs)) {
+				panic(goPanic{msg: "string index out of range"})
+			}
+			return int64(cs[ci])
+		}
+	}
+	st := toTerm(x)
+	m.asciiGuard(st, "s[i]")
+	it := toTerm(k)
+	inb := And(Ge(it, IntT(0)), Lt(it, Len(st)))
+	if !m.branch(fromTerm(inb)) {
+		panic(goPanic{msg: "string index out of range"})
+	}
+	return fromTerm(ToCode(At(st, it)))
 }
 
 // mapFind returns the index of key k (forking on symbolic equality) or -1.
@@ -1564,6 +1614,22 @@ func (m *Machine) sliceOp(fr *frame, x *ssa.Slice) Value {
 		hi = m.get(fr, x.High)
 	}
 	if typeIsString(x.X.Type()) {
+		if cs, ok := v.(string); ok {
+			l, h := int64(0), int64(len(cs))
+			okc := true
+			if lo != nil {
+				l, okc = lo.(int64)
+			}
+			if hi != nil && okc {
+				h, okc = hi.(int64)
+			}
+			if okc {
+				if l < 0 || h < l || h > int64(len(cs)) {
+					panic(goPanic{msg: "slice bounds out of range (string)"})
+				}
+				return cs[l:h]
+			}
+		}
 		st := toTerm(v)
 		if !(lo == nil && hi == nil) {
 			m.asciiGuard(st, "s[i:j]")
